@@ -13,6 +13,7 @@ from vf.props.rt_common import innermost_frame
 ID = "C12"
 LEVEL = "exploration"
 ALPHABET = ["a", "1", "_", "'", "-", ".", '"', "\\", "$", "{", " ", "\n", "\r", "é"]
+DIRECTED = [('"a"', "b"), ('"x y"', "k"), ('"a"', "b", "c"), ("a.b", "c"), ("p.q.r", "s"), ("${v}", "b"), ("a${v}", "b", "c"), ("a.b", "c.d", "e"), ('"', "x"), ("\\", "x"), ("a\nb", "c")]
 KEYWORDS = ["if", "then", "else", "assert", "with", "let", "in", "rec", "inherit", "or", "true", "false", "null", "import"]
 RULE = (
     "(a) every string of length 1..4 over the 14-symbol critical alphabet (a 1 _ ' - . \" \\ $ { space \\n \\r é) = 41 370 names "
@@ -234,6 +235,17 @@ def case_docs(names, r):
         for i in range(len(names) - 1, -1, -1):
             nested = "{ " + spell([names[i]], {0} if i in qa else set()) + " = " + nested + "; }"
         docs.append(("pre-nested-sets", nested, fq))
+    # look-alikes of a *parent* segment: the name `"a"` (quote characters included) next to the set `a`, and the name
+    # `a.b` next to the nested sets a -> b; the edit must go to (or create) the binding with exactly the requested name
+    if len(names) >= 2:
+        n0 = names[0]
+        if len(n0) >= 3 and n0.startswith('"') and n0.endswith('"') and '"' not in n0[1:-1] and "\\" not in n0:
+            docs.append(("pre-lookalike-unquoted", "{ " + spell([n0[1:-1]], set()) + " = { zz9 = 0; }; }", ()))
+        if "." in n0 and all(part and not N.needs_quotes(part) and part not in KEYWORDS for part in n0.split(".")):
+            nested = "{ zz9 = 0; }"
+            for part in reversed(n0.split(".")):
+                nested = "{ " + part + " = " + nested + "; }"
+            docs.append(("pre-lookalike-dotted", nested, ()))
     # a dynamic name `"a${x}"` is not a spelling of the literal name `a${x}`
     last = names[-1]
     k = last.find("${x}")
@@ -309,6 +321,8 @@ def run_shard(sh):
             if (i // sh.nshards) % 5 == 0:
                 yield ("p", n, "q")
     run_names(sh, part_a(), "exhaustive-small-scope")
+    if sh.index == 0:
+        run_names(sh, DIRECTED, "directed")
 
     examples = int(sh.params["examples"] * sh.params.get("scale", 1.0))
     crit = st.sampled_from(ALPHABET + ["${", "${x}", "\\${", "''", "\t", "/", "+", "@", "#", "日本", "=", ";", "\\n", "\\\\"] + KEYWORDS)
